@@ -730,7 +730,8 @@ def r16a(ctx, rep):
              "Ratio of them) print the bit pattern, so a negative number prints as a huge positive one that reads back "
              "as a different number. In <Number as LowerHex/Octal/Binary>::fmt no arm may pass a signed fixed-width "
              "integer or fixed-width Ratio to those impls unless the arm writes the sign itself under a sign test and "
-             "formats a magnitude (unsigned type).")
+             "formats a magnitude (unsigned type). Conversely, an arm that formats an unsigned magnitude (u64, BigUint) must "
+             "test the sign of the number, or the minus sign is lost.")
     n = 0
     for tname, tr in RADIX_FMT.items():
         fn = need(rep, "R16a", facts, "<marwood::number::Number as %s>::fmt" % tr)
@@ -741,6 +742,7 @@ def r16a(ctx, rep):
             n += 1
             rf = region_facts(fn, reg)
             bad = []
+            mags = []
             for c, fa, loc, bb, t in rf["calls"]:
                 # direct `fmt::LowerHex::fmt(x, f)` or through format_args (`Argument::new_lower_hex::<T>`)
                 ty = None
@@ -754,10 +756,18 @@ def r16a(ctx, rep):
                 signed = ty in SIGNED or any(("Ratio<%s>" % s_) in ty for s_ in SIGNED)
                 if signed:
                     bad.append((ty, loc, bb))
+                if ty in ("u8", "u16", "u32", "u64", "u128", "usize") or ty.endswith("BigUint"):
+                    mags.append((ty, loc, bb))
             sign_tests = [1 for op, aty, loc, bb, s in rf["bins"] if op in ("Lt", "Gt", "Le", "Ge") and aty in SIGNED + ("f64",)]
             sign_tests += [1 for c, fa, loc, bb, t in rf["calls"] if any(k in c for k in ("is_negative", "is_sign_negative", "signum"))]
             key = "R16a|%s|%s" % (tname, x)
             # the Float arm formats `abs() as i64` under a sign test: the cast target is signed but the value is a magnitude
+            if mags and not sign_tests:
+                rep.fail("R16a", key + "|sign-dropped", "<Number as %s>::fmt, %s arm: formats a magnitude (%s) without testing the "
+                         "sign of the number anywhere in the arm: a negative value prints as its absolute value and reads back as "
+                         "a different number" % (tname, x, ", ".join(sorted({short_path(b[0]) for b in mags}))), [b[1] for b in mags])
+            elif mags:
+                rep.ok("R16a", key + "|sign-dropped", "%s arm of %s formats a magnitude and tests the sign" % (x, tname), [b[1] for b in mags])
             if bad and not sign_tests:
                 rep.fail("R16a", key, "<Number as %s>::fmt, %s arm: passes %s to std's %s, which prints the two's-complement "
                          "bit pattern of a negative value — the printed form reads back as a different number" % (
@@ -1135,6 +1145,38 @@ def _share_origin(f, chain_a, chain_b):
                     out.add(pl["l"])
         return out
     return bool(bases(chain_a) & bases(chain_b))
+
+
+def r16h(ctx, rep, rule="R16h"):
+    facts = ctx["facts"]
+    rep.rule(rule, "string->number and the literal reader accept the same spellings: both hand the text to Number's parser "
+             "(parse_with_exactness / parse), and string->number answers #f only on that parser's verdict — every construction "
+             "of the #f result in string_number lies on the None edge of the parser call, none before it. A filter of its own "
+             "in front of the parser rejects spellings the printer produces (exponent notation, for one) that the literal "
+             "path still reads.")
+    f = need(rep, rule, facts, "marwood::vm::builtin::number::string_number")
+    if f is None:
+        return
+    parses = [bb for bb, t in f.calls() if (callee(t) or "").startswith("marwood::number::Number::parse")]
+    if not parses:
+        rep.anchor_lost(rule, "string_number no longer calls Number::parse*")
+        return
+    k = 0
+    for bb, t in f.calls():
+        fa = t.get("fnargs") or ""
+        if not (fa.endswith("::from") or fa.endswith("::into")) or "bool" not in fa or "VCell" not in fa:
+            continue
+        c = op_const(t["args"][0])
+        if c is None or c.get("int") not in (0, False):
+            continue
+        k += 1
+        key = "%s|string_number|false#%d" % (rule, k)
+        after = any(f.dominates(pb, bb) and pb != bb for pb in parses)
+        (rep.ok if after else rep.fail)(
+            rule, key, "string->number answers #f on the parser's verdict" if after else
+            "string->number answers #f before consulting Number's parser: a pre-filter decides which spellings are numbers, and "
+            "the literal reader (parse_number -> Number::parse) does not share it", [t["loc"]])
+    rep.floor(rule, "#f results of string->number", k, 1)
 
 
 def r16g(ctx, rep, rule="R16g"):
